@@ -84,8 +84,11 @@ Section Exec.
         reflexivity.
       + assert (Est : st = 1).
         { destruct (st =? 1) eqn:E1; [apply Z.eqb_eq, E1|]. destruct fx; cbn in Efx, Hfx; discriminate. }
-        subst st. cbn [eval map opt_all eval_bin]. rewrite Hx.
-        replace (lo + (1 + k * 1) - 1) with (lo + k * 1) by lia. reflexivity.
+        subst st. destruct (lo =? 1) eqn:El.
+        * apply Z.eqb_eq in El. subst lo. cbn [eval map opt_all]. rewrite Hx.
+          replace (1 + k * 1) with (1 + k * 1) by reflexivity. reflexivity.
+        * cbn [eval map opt_all eval_bin]. rewrite Hx.
+          replace (lo + (1 + k * 1) - 1) with (lo + k * 1) by lia. reflexivity.
     - destruct (to_expr (index_w x e1)) as [e1'|]; [|discriminate]. inversion Ht; subst.
       destruct (weval t n k e1) as [v1|]; [|discriminate]. inversion Hw; subst.
       cbn [eval]. rewrite (IH _ _ Hs eq_refl eq_refl). reflexivity.
